@@ -17,7 +17,8 @@ DECIDING = 'operations'
 CHUNK = {'quick': 1, 'thorough': 1}
 TIMEOUT = 3000
 OPS = ['split', 'split_no_overlap', 'trim', 'trim_easy', 'sample']
-RULE = ('case = one generated point set (1-4 clusters, optional sparse halo, d=2..5, n_points_min in '
+RULE = ('case = one generated point set (1-4 clusters - Gaussian blobs or, every fourth set, uniform simplices/boxes facing each '
+        'other across a small gap -, optional sparse halo, d=2..5, n_points_min in '
         '{None, d+1, 15, 30}, member class Ellipsoid or UnitCubeEllipsoidMixture); ALL operation sequences '
         'over {split, split(allow_overlap=False), trim(), trim(threshold=1), sample(50)} up to length 3 '
         '(quick) / 5 (thorough) - for every second point set appended to the fixed prefix split, split, sample - are '
@@ -43,17 +44,45 @@ def make_points(spec):
     npm = [None, d + 1, 15, 30][(i // 2) % 4]
     cls = 'Ellipsoid' if (i // 8) % 2 == 0 or i % 3 == 0 else 'UnitCubeEllipsoidMixture'
     pts = []
-    for _ in range(k):
+    flat = (i % 8 in (4, 5))
+    if flat:
+        d = 2       # the window in which a no-overlap split increases the volume exists in two dimensions
+    scale = rng.uniform(0.06, 0.1)
+    flat_par = (scale * rng.uniform(1.15, 1.27), scale * 3.0, scale)      # gap, height, half width of the base       # uniform simplices / boxes instead of Gaussian blobs: splitting such a pair can give
+    for j in range(k):        # non-overlapping children whose bounding ellipsoids are larger than the parent's
         n = int(rng.integers(40, 130))
         c = rng.uniform(0.2, 0.8, d)
         s = rng.uniform(0.01, 0.08, d)
-        pts.append(c + s * rng.normal(size=(n, d)))
+        if flat:
+            if j < 2:
+                # two simplices base to base across a gap, apexes pointing away from each other: the ellipsoid around
+                # both is a good fit, the ellipsoid around each one alone is a poor one
+                sign = 1.0 if j == 0 else -1.0
+                gap, height, half = flat_par
+                verts = np.zeros((d + 1, d))
+                verts[:d, 0] = sign * gap
+                for a in range(1, d):
+                    verts[a - 1, a] = half
+                    verts[a, a] = -half if a == d - 1 else verts[a, a]
+                verts[:d, 1:] = half * (2 * rng.random((d, d - 1)) - 1) if d > 2 else verts[:d, 1:]
+                if d == 2:
+                    verts[0, 1], verts[1, 1] = half, -half
+                verts[d, 0] = sign * (gap + height)
+                w = rng.dirichlet(np.ones(d + 1), size=n)
+                pts.append(np.full(d, 0.5) + np.vstack([verts, w @ verts]))
+            else:
+                pts.append(c + rng.uniform(0.05, 0.1) * (rng.random((n, d)) - 0.5))      # a uniform box elsewhere
+        else:
+            pts.append(c + s * rng.normal(size=(n, d)))
     if i % 5 == 0:   # sparse halo: a low-density record that trim() may drop
         pts.append(rng.uniform(0.05, 0.95, size=(int(rng.integers(d + 2, 25)), d)))
     p = np.clip(np.vstack(pts), 1e-6, 1 - 1e-6)
     rng.shuffle(p)
+    enlarge = float([1.1, 1.05, 1.5][i % 3])
+    if flat:
+        enlarge, npm = float([1.05, 1.1][i % 2]), [None, 15][(i // 8) % 2]
     return p, dict(d=d, clusters=k, n_points_min=npm, bound_class=cls, n=len(p),
-                   enlarge_per_dim=float([1.1, 1.05, 1.5][i % 3]), halo=(i % 5 == 0))
+                   enlarge_per_dim=enlarge, halo=(i % 5 == 0), flat=bool(flat))
 
 
 def _digest_bound(b):
